@@ -209,3 +209,39 @@ Proof.
   change (cur_at c (S (S k))) with (incr_interval c (cur_at c (S k))).
   apply incr_le_max; [exact Hm|]. apply cur_at_nonneg; [exact Hm|lia|lia].
 Qed.
+
+(** the interval [delay_lo, delay_hi] is exactly the set of values getRandomValueFromInterval
+    can return: every d in it is produced by some random number in [0,1) (so the interval
+    membership the monitor checks is not looser than the model) *)
+Lemma rand_value_complete (rf : Q) (cur d : Z) :
+  (0 <= rf)%Q -> (rf <= 1)%Q -> 0 <= cur ->
+  delay_lo rf cur <= d <= delay_hi rf cur ->
+  exists r, (0 <= r)%Q /\ (r < 1)%Q /\ rand_value rf r cur = d.
+Proof.
+  intros R0 R1 Hc [Hlo Hhi].
+  pose proof (inj_cur_nonneg cur Hc) as Hq.
+  assert (Hp : (0 <= rf * inject_Z cur)%Q) by (apply Qmult_le_0_compat; assumption).
+  assert (Hmm : (rv_min rf cur <= rv_max rf cur)%Q).
+  { unfold rv_min, rv_max. revert Hp. generalize (rf * inject_Z cur)%Q. intros p Hp. lra. }
+  set (mn := rv_min rf cur) in *. set (mx := rv_max rf cur) in *.
+  assert (HW : (0 < mx - mn + 1)%Q) by lra.
+  set (x := if Qlt_le_dec mn (inject_Z d) then inject_Z d else mn).
+  assert (Hx1 : (mn <= x)%Q) by (unfold x; destruct (Qlt_le_dec mn (inject_Z d)); lra).
+  assert (Hx2 : (x < mx + 1)%Q).
+  { unfold x. destruct (Qlt_le_dec mn (inject_Z d)); [|lra].
+    pose proof (Qceiling_lt mx) as C. unfold delay_hi in Hhi. fold mx in Hhi.
+    assert (D : (inject_Z (d + -1) <= inject_Z (Qceiling mx - 1))%Q) by (rewrite <- Zle_Qle; lia).
+    rewrite inject_Z_plus in D. change (inject_Z (-1)) with (-1#1)%Q in D. lra. }
+  assert (Hfl : Qfloor x = d).
+  { unfold x. destruct (Qlt_le_dec mn (inject_Z d)) as [L|L]; [apply Qfloor_Z|].
+    pose proof (Qfloor_resp_le _ _ L) as A. rewrite Qfloor_Z in A.
+    unfold delay_lo in Hlo. fold mn in Hlo. lia. }
+  exists ((x - mn) / (mx - mn + 1))%Q.
+  assert (Hr0 : (0 <= (x - mn) / (mx - mn + 1))%Q).
+  { apply Qle_shift_div_l; [exact HW|]. lra. }
+  assert (Hr1 : ((x - mn) / (mx - mn + 1) < 1)%Q).
+  { apply Qlt_shift_div_r; [exact HW|]. lra. }
+  split; [exact Hr0|]. split; [exact Hr1|].
+  rewrite (rand_value_floor rf _ cur R0 R1 Hc Hr0).
+  fold mn mx. rewrite <- Hfl. apply Qfloor_comp. field. lra.
+Qed.
